@@ -414,6 +414,11 @@ pub fn shards(tier: &str) -> Vec<String> {
             v.push(format!("sat:{k}:{}", model::order_str(&o)));
         }
     }
+    for k in ["bdd", "bcdd", "zbdd"] {
+        for o in ["012", "201"] {
+            v.push(format!("cachehist:{k}:{o}"));
+        }
+    }
     for s in ["selftest", "construct", "add", "cmp", "shift", "conv", "fmt:d", "fmt:b", "fmt:o", "fmt:x", "fmt:X"] {
         v.push(format!("nat:{s}"));
     }
@@ -445,6 +450,15 @@ pub fn run(ctx: &mut Ctx) {
                     run_sat3::<Zbdd>(ctx, &order);
                     run_zbdd_ext(ctx, &order);
                 }
+                _ => panic!("bad shard"),
+            }
+        }
+        "cachehist" => {
+            let order = model::parse_order(parts[2]);
+            match parts[1] {
+                "bdd" => run_cache_hist::<Bdd>(ctx, &order),
+                "bcdd" => run_cache_hist::<Bcdd>(ctx, &order),
+                "zbdd" => run_cache_hist::<Zbdd>(ctx, &order),
                 _ => panic!("bad shard"),
             }
         }
@@ -1754,4 +1768,98 @@ fn nat_fmt(ctx: &mut Ctx, letter: &str) {
         });
         ctx.count("evaluations", outs.len() as u64);
     });
+}
+
+
+// ---------------------------------------------------------------------------
+// cache-reuse histories, enumerated: every sequence of length <= d over
+// {query(f, vars) for 2 functions x 2 variable counts, gc, rebuild (drop + gc + a
+// different function in the recycled slots), toggle cache_all} on ONE cache per
+// number type. Catches invalidation bugs that need two things to change between
+// two queries (e.g. gc AND a different vars) followed by a query without either.
+// ---------------------------------------------------------------------------
+
+fn hist_count<K: BoolKind, N: NumT>(ctx: &mut Ctx, env: &Env, f: &K::F, t: Tab, vars: u32, cache: &mut Cache<N>, acts: &[usize], step: usize) {
+    ctx.count("evaluations", 1);
+    ctx.count("transitions", 1);
+    let exact = exact_count(t, env.n, vars);
+    let got = f.sat_count(vars, cache);
+    if let Err(why) = got.judge(&exact, vars) {
+        let names: Vec<&str> = acts.iter().map(|&a| CH_NAMES[a]).collect();
+        ctx.viol(
+            attrs(&[("kind", env.kind), ("op", "sat_count"), ("num", N::NAME), ("history", "enumerated_cache_history"), ("class", "wrong_value")]),
+            json!({"kind": env.kind, "n": env.n, "order": env.order, "num": N::NAME, "actions": acts, "action_names": names, "failed_at_step": step,
+                   "table": format!("{t:#x}"), "vars": vars, "expected": exact.to_dec(), "got": got.show(),
+                   "legend": "functions f0 = 0xe8 (majority), f1 = 0x96 (parity) resp. after rebuild f1 = 0xca; one SatCountCache shared by all queries of a history"}),
+            &format!("{} order {} cache history {names:?}: step {step}: sat_count::<{}>({t:#x}, vars={vars}) = {}, exact count is {}: {why}", env.kind, env.order, N::NAME, got.show(), exact.to_dec()),
+        );
+    }
+}
+
+const CH_NAMES: [&str; 7] = ["q(f0,v1)", "q(f0,v2)", "q(f1,v1)", "q(f1,v2)", "gc", "rebuild f1", "toggle cache_all"];
+
+fn run_cache_hist<K: BoolKind>(ctx: &mut Ctx, order: &[u32]) {
+    let n = 3u32;
+    let zbdd = K::BK == BKind::Zbdd;
+    let order = order.to_vec();
+    let depth = if ctx.thorough() { 6 } else { 5 };
+    let env = Env { kind: K::NAME, n, order: model::order_str(&order), mgr_vars: n, layout: "plain" };
+    // ZBDD: vars must be the number of manager variables, so only one variable count
+    let (v1, v2) = if zbdd { (3, 3) } else { (3, 4) };
+    let na = 7usize;
+    for first in 0..na {
+        ctx.group(&format!("cache histories first action {first}"), |ctx| {
+            let total = na.pow(depth as u32 - 1);
+            for code in 0..total {
+                let mut acts = vec![first];
+                let mut c = code;
+                for _ in 1..depth {
+                    acts.push(c % na);
+                    c /= na;
+                }
+                if zbdd && acts.iter().any(|&a| a == 1 || a == 3) {
+                    continue;
+                }
+                ctx.count("executions", 1);
+                let mref = crate::dd::fresh::<K>(n, &order, 256, 64, 1);
+                // keep extra handles alive so that inner nodes have ref_count > 1 (cached without cache_all)
+                let mut tabs = [0xe8u64, 0x96];
+                let mut f: Vec<K::F> = tabs.iter().map(|&t| K::build(&mref, t).unwrap()).collect();
+                let mut keep: Vec<K::F> = vec![K::build(&mref, 0x66).unwrap(), K::build(&mref, 0x88).unwrap(), K::build(&mref, 0xee).unwrap()];
+                let mut c64: Cache<Saturating<u64>> = Cache::default();
+                let mut cnat: Cache<Natural> = Cache::default();
+                let mut cf: Cache<F64> = Cache::default();
+                for (i, &a) in acts.iter().enumerate() {
+                    match a {
+                        0..=3 => {
+                            let fi = a / 2;
+                            let vars = if a % 2 == 0 { v1 } else { v2 };
+                            hist_count::<K, _>(ctx, &env, &f[fi], tabs[fi], vars, &mut c64, &acts, i);
+                            hist_count::<K, _>(ctx, &env, &f[fi], tabs[fi], vars, &mut cnat, &acts, i);
+                            hist_count::<K, _>(ctx, &env, &f[fi], tabs[fi], vars, &mut cf, &acts, i);
+                        }
+                        4 => {
+                            gc_of::<K>(&mref);
+                        }
+                        5 => {
+                            // drop f1 and the helpers, gc, build different functions into the recycled slots
+                            let newt = if tabs[1] == 0x96 { 0xca } else { 0x96 };
+                            f.pop();
+                            keep.clear();
+                            gc_of::<K>(&mref);
+                            f.push(K::build(&mref, newt).unwrap());
+                            keep.push(K::build(&mref, 0x3c).unwrap());
+                            keep.push(K::build(&mref, 0xa0).unwrap());
+                            tabs[1] = newt;
+                        }
+                        _ => {
+                            c64.cache_all = !c64.cache_all;
+                            cnat.cache_all = !cnat.cache_all;
+                            cf.cache_all = !cf.cache_all;
+                        }
+                    }
+                }
+            }
+        });
+    }
 }
